@@ -3,16 +3,19 @@
 
 Runs the check(s) of a property against a deliberately broken variant of the repository (seeded/<id>/patch.diff).
 
-Default (jobs=1): the patch is applied to /repo itself (git -C /repo apply), the check is run, and /repo is restored straight
-afterwards (git -C /repo checkout -- .).  With --jobs=N > 1 each variant gets its own scratch worktree of /repo's HEAD under
-$TMPDIR (removed afterwards) and the check is pointed at it with VERIF_REPO, so several variants can be tried at once while
-/repo stays untouched.  With --write-meta the outcome is recorded in seeded/<id>/meta.json."""
+Default: each variant gets its own scratch worktree of /repo's HEAD under $TMPDIR (removed afterwards) and the check is pointed at
+it with VERIF_REPO, so /repo stays untouched and several variants can be tried at once (--jobs=N).  With --in-repo the patch
+is applied to /repo itself (git -C /repo apply), the check is run, and /repo is restored straight afterwards
+(git -C /repo checkout -- .); nothing else may use /repo meanwhile.  With --write-meta the outcome is recorded in seeded/<id>/meta.json."""
 import concurrent.futures, glob, json, os, re, subprocess, sys, tempfile, time, shutil
 HERE = os.path.dirname(os.path.dirname(os.path.abspath(__file__)))
 args = [a for a in sys.argv[1:] if not a.startswith('--')]
 opts = dict((a[2:].split('=', 1) + ['1'])[:2] for a in sys.argv[1:] if a.startswith('--'))
 tier = opts.get('tier', 'quick')
 jobs = int(opts.get('jobs', '1'))
+inrepo = 'in-repo' in opts
+assert not (inrepo and jobs > 1), '--in-repo applies the patch to /repo itself: one at a time'
+
 alld = sorted(os.path.basename(p) for p in glob.glob(os.path.join(HERE, 'seeded', 'C??-*')))
 ids = [d for d in alld if not args or d in args or d.split('-')[0] in args]
 assert subprocess.run(['git', '-C', '/repo', 'status', '--porcelain', '--untracked-files=no'], capture_output=True, text=True).stdout.strip() == '', '/repo not clean'
@@ -43,7 +46,7 @@ def one(sid):
             "existing_tests_with_change": "the 415 baseline tests still pass (run by the sub-agent that produced the change, in its own scratch worktree)",
             "ran": []}
     lines = []
-    if jobs > 1:
+    if not inrepo:
         repo = tempfile.mkdtemp(prefix="nvseedwt_%s_" % sid)
         os.rmdir(repo)
         subprocess.run(['git', '-C', '/repo', 'worktree', 'add', '--detach', '-q', repo, 'HEAD'], check=True, capture_output=True)
@@ -70,7 +73,7 @@ def one(sid):
                 meta["ran"].append({"command": "./check %s --tier %s (VERIF_SEED=%s) on %s with the patch applied" % (c, tier, opts.get('seed', '0'), where),
                                     "exit": r.returncode, "violation_lines": len(viol), "first_reports": what[:3], "wall_s": round(time.time() - t)})
     finally:
-        if jobs > 1:
+        if not inrepo:
             subprocess.run(['git', '-C', '/repo', 'worktree', 'remove', '--force', repo], capture_output=True)
             shutil.rmtree(repo, ignore_errors=True)
         else:
